@@ -118,14 +118,14 @@ func (x *Exec) inputTerms() []string {
 }
 
 type genCtx struct {
-	x      *Exec
-	model  map[string]string
-	decls  []string
-	refVar map[string]string // ref value -> variable name
-	n      int
+	x       *Exec
+	model   map[string]string
+	decls   []string
+	refVar  map[string]string // ref value -> variable name
+	n       int
 	imports map[string]string // path -> name
-	ok     bool
-	why    string
+	ok      bool
+	why     string
 	strVals map[string]string
 }
 
